@@ -33,7 +33,7 @@ ASSUMPTIONS = ['tasks are atomic (each writes its own window of the shared buffe
                'worker counts and how far the workers have got at each pool API call',
                'under an injected read fault the call may raise any exception or return exactly the fault-free data',
                'a single-row save loads back as a plain array (documented behaviour of ra.load)']
-REACH_EXPECTED = ['save_over_existing_file', 'key_asked_for_twice', 'retry_after_fault', 'alloc_fault_run', 'rows_longer_than_a_chunk', 'lazy_workers', 'eager_workers', 'worker_switch', 'multi_chunk_dispatch', 'frame_entries', 'per_file_args',
+REACH_EXPECTED = ['same_trajectory_object_listed_twice', 'save_over_existing_file', 'key_asked_for_twice', 'retry_after_fault', 'alloc_fault_run', 'rows_longer_than_a_chunk', 'lazy_workers', 'eager_workers', 'worker_switch', 'multi_chunk_dispatch', 'frame_entries', 'per_file_args',
                   'lengths_hint', 'generator_input', 'read_fault_run', 'rows_cross_padding_10', 'rows_cross_padding_100',
                   'strided_load', 'key_subset_load', 'rect_array_roundtrip', 'concatenate_trjs_run', 'mixed_topologies', 'striped_loader_run']
 FORMATS = ('xtc', 'h5', 'nc')      # not trr: mdtraj's TRR reader corrupts the heap with atom_indices
@@ -205,9 +205,9 @@ def fam_concat_trjs(ctx):
     top = topology(n_atoms)
     n = t.irange(1, 10)
     rs = np.random.RandomState(t.draw(2 ** 31 - 1))
-    atoms = t.choice((None, 'name CA', 'name N or name C', 'name CA or name N or name C'))
+    atoms = t.choice((None, 'name CA', 'name N or name C', 'name CA or name N or name C', 'index >= 1', 'index >= 1'))
     tops = [top]
-    if atoms is not None and t.flag(1, 3):
+    if atoms is not None and not atoms.startswith('index') and t.flag(1, 3):
         # two different systems whose selections have the same number of atoms (other atom order, an extra atom type)
         from .c10 import make_top
         n_res = t.irange(1, 3)
@@ -217,6 +217,12 @@ def fam_concat_trjs(ctx):
     for i in range(n):
         tp = tops[t.draw(len(tops))]
         trjs.append(md.Trajectory((rs.rand(t.irange(1, 8), tp.n_atoms, 3) + i).astype('float32'), tp))
+    if n >= 2 and t.flag(1, 3):
+        # the same trajectory object is listed twice (a replica analysed under two labels)
+        i_, j_ = t.perm(n)[:2]
+        trjs[j_] = trjs[i_]
+        ctx.hit('same_trajectory_object_listed_twice')
+    snap_in = [(x.n_atoms, x.xyz.copy()) for x in trjs]
     n_procs = None if t.flag(1, 3) else t.irange(1, 5)
     ctx.scenario.update(family='concatenate_trjs', trajectories=n, lengths=[len(x) for x in trjs], atoms=atoms, n_procs=n_procs)
     ctx.fp('ct', n, tuple(len(x) for x in trjs), n_atoms, atoms, n_procs)
@@ -224,6 +230,8 @@ def fam_concat_trjs(ctx):
     with simpool.installed(ctx) as sim:
         out = ctx.sut(L.concatenate_trjs, trjs, atoms=atoms, n_procs=n_procs)
     note_pool(ctx, sim)
+    require(all(x.n_atoms == na_ and np.array_equal(x.xyz, xyz_) for x, (na_, xyz_) in zip(trjs, snap_in)), 'input_modified',
+            'concatenate_trjs changed the trajectories it was given')
     parts = [x if atoms is None else x.atom_slice(x.top.select(atoms)) for x in trjs]
     want = np.concatenate([p.xyz for p in parts])
     require(np.asarray(out.xyz).shape == want.shape and np.array_equal(out.xyz, want), 'not_concatenation_in_file_order',
